@@ -67,7 +67,7 @@ func (c *Constraints) transform(v reflect.Value) {
 
 		case reflect.String:
 			// can only apply upper transform to string
-			v.SetString(strings.ToUpper(v.Interface().(string)))
+			v.SetString(strings.ToUpper(v.String()))
 		}
 	}
 
@@ -83,7 +83,7 @@ func (c *Constraints) transform(v reflect.Value) {
 
 		case reflect.String:
 			// can only apply upper transform to string
-			v.SetString(strings.ToLower(v.Interface().(string)))
+			v.SetString(strings.ToLower(v.String()))
 		}
 	}
 }
